@@ -1,22 +1,23 @@
-\* two channels, keyed records only: 12,402 distinct / 241,574 generated states, ~10 s with 8 idle workers
+\* the exact-proposal path: one channel, compat surface, two commands, suffix replacement with at most one proposal:
+\* 18,228 distinct / 535,696 generated states, depth 12, ~25 s with 8 idle workers
 SPECIFICATION SpecX
 CONSTANTS
-  Chans = {"c1", "c2"}
-  Ids = {1, 2}
+  Chans = {"c1"}
+  Ids = {1, 2, 3}
   Froms = {"u1"}
-  Nos = {"n1"}
+  Nos = {""}
   Pays = {0}
-  Surfaces = {"typed", "compat"}
-  MaxSeq = 2
+  Surfaces = {"compat"}
+  MaxSeq = 3
   MaxBatch = 1
   MaxOpen = 1
-  HWs = {}
+  HWs = {2}
   ProbeIds <- MCProbeIds
   ProbeFroms <- MCProbeFroms
   ProbeNos <- MCProbeNos
   KeepRmaxVariant = FALSE
-  Pids = {}
-  MaxRepl = 0
+  Pids = {1, 2}
+  MaxRepl = 1
   ProbePids <- MCProbePids
 VIEW ViewX
 INVARIANTS TypeOK C07_Contiguous C07_CachedLogEnd C07_IndexSound C08_KeyUnique C08_IdOnce C08_FilterCovers TypeOKX C07_ExactSound
